@@ -373,6 +373,7 @@ func parentMain(p *Prop, tier string) int {
 	var mu sync.Mutex
 	results := map[int]unitResult{}
 	var crashVio []Violation
+	watchdog := 0
 	var wg sync.WaitGroup
 	for k := 0; k < nw; k++ {
 		wg.Add(1)
@@ -387,7 +388,27 @@ func parentMain(p *Prop, tier string) int {
 				var stderr tailBuf
 				cmd.Stderr = &stderr
 				cmd.Stdout = &stderr // the library prints noise to stdout; keep it away from our result channel
-				err := cmd.Run()
+				err := cmd.Start()
+				timedOut := false
+				if err == nil {
+					// watchdog: a worker that makes no progress at all is a harness fault (reported as
+					// HARNESS-ERROR, never as a violation); the limit is far above any unit's run time
+					waitCh := make(chan error, 1)
+					go func() { waitCh <- cmd.Wait() }()
+					limit := time.Duration(envInt("VERIF_WORKER_TIMEOUT_S", 4*3600)) * time.Second
+					select {
+					case err = <-waitCh:
+					case <-time.After(limit):
+						timedOut = true
+						cmd.Process.Kill()
+						err = <-waitCh
+					}
+				}
+				if timedOut {
+					mu.Lock()
+					watchdog++
+					mu.Unlock()
+				}
 				// collect finished units
 				done := map[int]bool{}
 				if f, e := os.Open(outPath); e == nil {
@@ -406,6 +427,9 @@ func parentMain(p *Prop, tier string) int {
 				}
 				if err == nil {
 					return
+				}
+				if timedOut {
+					return // the units of this worker stay missing: HARNESS-ERROR below
 				}
 				// crashed: find the unit in progress
 				cur := -1
@@ -451,6 +475,7 @@ func parentMain(p *Prop, tier string) int {
 	var vios []Violation
 	capped := false
 	missing := 0
+	var perUnit []interface{}
 	idxs := make([]int, 0, len(results))
 	for i := range results {
 		idxs = append(idxs, i)
@@ -484,6 +509,20 @@ func parentMain(p *Prop, tier string) int {
 		}
 		vios = append(vios, r.Violations...)
 		capped = capped || r.Capped
+		if len(perUnit) < 400 {
+			pu := map[string]interface{}{"unit": r.Unit, "wall_ms": r.WallMs}
+			for _, k := range []string{"executions", "evaluations", "transitions"} {
+				if v, ok := r.Counters[k]; ok {
+					pu[k] = v
+				}
+			}
+			for _, k := range []string{"states", "outcomes", "nontrivial"} {
+				if v, ok := r.Sets[k]; ok {
+					pu["distinct_"+k] = v
+				}
+			}
+			perUnit = append(perUnit, pu)
+		}
 	}
 	missing = len(units) - len(results)
 	vios = append(vios, crashVio...)
@@ -529,7 +568,7 @@ func parentMain(p *Prop, tier string) int {
 			fmt.Printf("  key=%q unit=%s\n  %s\n", v.Key, v.Unit, firstLines(v.Desc, 6))
 		}
 	}
-	if counters["harness_divergences"] > 0 || (missing > 0 && len(crashVio) == 0) {
+	if counters["harness_divergences"] > 0 || (missing > 0 && len(crashVio) == 0) || watchdog > 0 {
 		fmt.Printf("HARNESS-ERROR property=%s divergences=%d missing_units=%d\n", p.ID, counters["harness_divergences"], missing)
 		if exit == 0 {
 			exit = 3
@@ -556,6 +595,7 @@ func parentMain(p *Prop, tier string) int {
 		cov["notes"] = notes
 	}
 	cov["known_findings_reported"] = nKnown
+	cov["per_unit"] = perUnit
 	cov["workers"] = nw
 	switch p.Level {
 	case "model_checking":
@@ -579,7 +619,7 @@ func parentMain(p *Prop, tier string) int {
 	sort.Strings(keys)
 	for _, k := range keys {
 		switch k {
-		case "samples", "rule", "notes", "bounds_completed":
+		case "samples", "rule", "notes", "bounds_completed", "per_unit":
 		default:
 			fmt.Printf("  %s=%v", k, cov[k])
 		}
